@@ -300,6 +300,11 @@ def actions(w: World, rich: bool = True) -> list[tuple]:
         for i in range(len(o._operands)):
             for v in vals:
                 A.append(("operands.setitem", ol, i, v))
+        if len(o._operands) >= 2:
+            # Python sequence protocol: a negative index addresses the same slot as len + index
+            for v in vals[:2]:
+                A.append(("operands.setitem", ol, -1, v))
+                A.append(("operands.setitem", ol, -len(o._operands), v))
         A.append(("operands.set", ol, ()))
         if len(o._operands) >= 2:
             A.append(("operands.set", ol, "reversed"))
@@ -310,6 +315,9 @@ def actions(w: World, rich: bool = True) -> list[tuple]:
         for i in range(len(o._successors)):
             for bl, _ in blocks:
                 A.append(("successors.setitem", ol, i, bl))
+        if len(o._successors) >= 2:
+            for bl, _ in blocks[:2]:
+                A.append(("successors.setitem", ol, -1, bl))
         if len(o._successors):
             A.append(("successors.set", ol, ()))
         for bl, _ in blocks[:3]:
